@@ -3,13 +3,13 @@ module findings
 go 1.20
 
 require (
+	github.com/aws/aws-sdk-go v1.40.12
 	github.com/aws/aws-sdk-go-v2 v1.25.0
 	github.com/aws/aws-sdk-go-v2/service/dynamodb v1.29.0
 	github.com/truora/minidyn v0.0.0
 )
 
 require (
-	github.com/aws/aws-sdk-go v1.40.12 // indirect
 	github.com/aws/aws-sdk-go-v2/internal/configsources v1.3.0 // indirect
 	github.com/aws/aws-sdk-go-v2/internal/endpoints/v2 v2.6.0 // indirect
 	github.com/aws/aws-sdk-go-v2/service/internal/accept-encoding v1.11.0 // indirect
